@@ -527,7 +527,13 @@ def run(ck):
     n2 = c05.receive(ck, agg, nnode)
     n3 = loops(ck, agg)
     n4 = stale_report(ck, agg)
+    # "... or make it forward garbage": whatever a node re-transmits (routing, relay, NETWORK_ACK, forwarded mesh frames) leaves through
+    # _write_to_pipe - a frame that fits one payload goes out under its own header with its whole message, longer ones in 24-byte steps
+    # (shared with C11/R11.6)
+    from . import c11
+    n5 = c11.fragment_loop(ck, agg, rule="R15.8")
     agg.flush()
+    ck.floor("R15.8", "re-transmission scenarios by message length", n5, 30)
     ck.floor("R15.1", "update() analyses", n1, 12)
     ck.floor("R15.1", "raise-capable site evaluations", sites, 40)
     ck.floor("R15.4", "loops reachable from update()", n3, 12)
